@@ -28,6 +28,7 @@ type GNode struct {
 	Block *cfg.Block
 	Ast   ast.Node // KStmt: the node; KEdge: the condition (may be nil)
 	// KEdge only:
+	Flipped bool           // the false successor, carrying (as a true condition) what is known to hold there
 	Truth  bool            // which successor of the 2-way block
 	Tag    ast.Expr        // tag of an expression switch when Ast is a case expression
 	Loop   ast.Stmt        // range statement for range-loop edges
@@ -165,6 +166,14 @@ func (p *Prog) Graph(f *Func) *Graph {
 					en.Ast = normaliseCmp(f, inlineCond(f, cond))
 					if sw := p.swTag[cond]; sw != nil {
 						en.Tag = sw.Tag
+						// switch over the result of a classifier helper: the edge carries the helper's own comparisons
+						if ce := classifierEdge(f, sw, cond, en.Truth); ce != nil {
+							en.Ast, en.Tag = normaliseCmp(f, ce), nil
+							if !en.Truth {
+								en.Truth = true // the expression returned is what holds on this edge
+								en.Flipped = true
+							}
+						}
 					}
 				}
 				switch b.Succs[0].Kind {
@@ -534,7 +543,13 @@ func inlineCond(f *Func, cond ast.Expr) ast.Expr {
 		return cond
 	}
 	c, ok := e.(*ast.CallExpr)
-	if !ok || len(c.Args) != 0 {
+	if !ok {
+		return cond
+	}
+	if in := inlinePredCall(f, c); in != nil {
+		return &ast.ParenExpr{Lparen: c.Pos(), X: in, Rparen: c.End()}
+	}
+	if len(c.Args) != 0 {
 		return cond
 	}
 	id, ok := unparen(c.Fun).(*ast.Ident)
